@@ -54,13 +54,15 @@ CHECKS.update({
         technique="Lean 4 proof (token-level round trip for all canonical objects) + counterexample theorem + differential correspondence of str/parse",
         design_ref="0.2, 6/C06"),
     "C04": dict(
-        text="Lean: leaf lemma for the ordered/equality operators (PEP 440 match = interval membership, any candidate), "
-             "tree_exact (any &,|,~ expression over canonical leaves never crashes and admits exactly the Boolean "
-             "combination of its leaves; from C01). Wildcard/~= leaves and the render-then-match step are covered by two "
-             "differential streams: the Lean reference matcher vs installed packaging on leaves x finals, and `v in result` "
-             "vs the Boolean combination of packaging's answers, both also compared with the model's containsFinal.",
-        technique="Lean 4 proof (algebra + plain leaves) + differential correspondence against packaging",
-        design_ref="6/C04"),
+        text="Lean: leaf_exact (for EVERY operator incl. ~=, ==X.*, !=X.*: PEP 440 match of a final candidate = membership in the "
+             "bounds _from_pkg_specifier builds), tree_exact (any &,|,~ expression over canonical leaves never crashes and admits "
+             "exactly the Boolean combination of its leaves; from C01), contains_exact (the contains() path - render, then ask "
+             "packaging - equals `in` for every nice object and every final release; from C06's round trip + the leaf theorem; "
+             "without niceness it is false: known finding D4a). Differential: the Lean reference matcher vs installed packaging on "
+             "leaves x finals, and `v in result` / result.contains(v) vs the Boolean combination of packaging's answers, both also "
+             "compared with the model.",
+        technique="Lean 4 proof (leaves, algebra, contains path) + differential correspondence against packaging",
+        design_ref="0.2, 6/C04"),
     "C17": dict(
         text="Lean: fromClause_total / fromSpecifierSet_total - on every clause packaging's grammar accepts, the translation "
              "to ranges cannot fail (the repaired defect D5), so no exception other than InvalidSpecifier is reachable from "
